@@ -1,11 +1,12 @@
 // c04: correspondence harness for the ledger family (properties C04, C07, C12; escrow identity of C20).
-//  tx mode    : on a real FSM (mini-node), transactions from the stateful generator are resolved by the real CheckTx and applied
-//               one at a time through the real ApplyTransactions; a full state scan before and after, the resolved message and the
-//               outcome are written as a case: Coq compares with model/Ledger.v (apply_tx) and evaluates the scan predicates
-//               (conservation, staking consistency, escrow identity, failed transaction = no change).
-//  chain mode : generated chains of blocks with ALL message kinds of the generator, non-signers, double-sign slashes and
-//               parameter changes, committed through the real ApplyBlock/IndexQC/IndexBlock/Commit sequence; a scan after every
-//               block is checked against the predicates (including kinds the model does not cover yet).
+//
+//	tx mode    : on a real FSM (mini-node), transactions from the stateful generator are resolved by the real CheckTx and applied
+//	             one at a time through the real ApplyTransactions; a full state scan before and after, the resolved message and the
+//	             outcome are written as a case: Coq compares with model/Ledger.v (apply_tx) and evaluates the scan predicates
+//	             (conservation, staking consistency, escrow identity, failed transaction = no change).
+//	chain mode : generated chains of blocks with ALL message kinds of the generator, non-signers, double-sign slashes and
+//	             parameter changes, committed through the real ApplyBlock/IndexQC/IndexBlock/Commit sequence; a scan after every
+//	             block is checked against the predicates (including kinds the model does not cover yet).
 package main
 
 import (
@@ -99,7 +100,8 @@ func genesis(r *sim.Rng, nv, nKeys int) *sim.GenesisSpec {
 	p.Validator.NonSignSlashPercentage = r.Pick(1, 10, 50)
 	p.Validator.DoubleSignSlashPercentage = r.Pick(10, 50, 100)
 	p.Validator.MaxSlashPerCommittee = r.Pick(15, 60, 100)
-	p.Validator.MinimumStakeForValidators = r.Pick(0, 0, 500)
+	p.Validator.MinimumStakeForValidators = r.Pick(0, 0, 500, 900)
+	p.Consensus.ProtocolVersion = fsm.NewProtocolVersion(0, 2) // committee-scoped slashing (the modelled path)
 	g.Params = p
 	for i := 0; i < nv; i++ {
 		g.Validators = append(g.Validators, sim.StdValidator(i, r.Pick(1, 5, 1000, 1000, 250000)))
@@ -109,6 +111,52 @@ func genesis(r *sim.Rng, nv, nKeys int) *sim.GenesisSpec {
 	}
 	g.Pools = []*fsm.Pool{{Id: lib.DAOPoolID, Amount: r.Pick(0, 1000, 1_000_000)}}
 	return g
+}
+
+var wSlash *sim.CaseWriter
+
+// slashCase: the real SlashValidator on a committee member (not a delegate: see DESIGN.md O-7) of the current state, with
+// percentages around the per-committee cap, 100% and dust stakes; sometimes twice in a row (the per-block tracker then holds
+// the first slash), sometimes for a chain the validator is not a member of
+func slashCase(r *sim.Rng, n *sim.FNode, gen *sim.TxGen) {
+	pre, e := sim.ScanState(n.FSM)
+	if e != nil {
+		panic(e)
+	}
+	var cands []*fsm.Validator
+	vals, _ := n.FSM.GetValidators()
+	for _, v := range vals {
+		if !v.Delegate && len(v.Committees) > 0 {
+			cands = append(cands, v)
+		}
+	}
+	if len(cands) == 0 {
+		st.Skipped["slash-no-candidate"]++
+		return
+	}
+	v := cands[r.Intn(len(cands))]
+	chain := v.Committees[r.Intn(len(v.Committees))]
+	if r.Chance(8) {
+		chain = 777
+	}
+	if r.Chance(70) {
+		n.FSM.VerifResetSlashTracker()
+	}
+	percent := r.Pick(0, 1, 5, 10, 14, 15, 16, 50, 60, 99, 100, 150)
+	already, scoped, found, err := n.FSM.VerifSlash(v.Address, chain, percent)
+	if !scoped || !found {
+		st.Skipped["slash-not-scoped"]++
+		return
+	}
+	post, e := sim.ScanState(n.FSM)
+	if e != nil {
+		panic(e)
+	}
+	lit := fmt.Sprintf("mkSl %s %s %s %s %s %s %s", pre.Lit(), sim.AddrN(v.Address), sim.CoqN(chain), sim.CoqN(percent), sim.CoqN(already), sim.CoqBool(err != nil), post.Lit())
+	wSlash.Add(lit, map[string]any{"kind": "slash", "percent": percent, "already": already, "chain": chain, "stake": v.StakedAmount, "err": err != nil})
+	st.Cases++
+	st.TxCases["slash"]++
+	st.Distinct++
 }
 
 func txMode(r *sim.Rng, nStates, perState int, cw *sim.CaseWriter, outDir string) {
@@ -128,6 +176,10 @@ func txMode(r *sim.Rng, nStates, perState int, cw *sim.CaseWriter, outDir string
 					break
 				}
 			}
+			if wSlash != nil && r.Chance(22) {
+				slashCase(r, n, gen)
+				continue
+			}
 			tx, _ := gen.Next(n.FSM)
 			msg, sender, fee, cerr := n.FSM.VerifCheckTx(tx)
 			if cerr != nil {
@@ -142,7 +194,9 @@ func txMode(r *sim.Rng, nStates, perState int, cw *sim.CaseWriter, outDir string
 			}
 			res := new(lib.ApplyBlockResults)
 			if aerr := n.FSM.ApplyTransactions(context.Background(), [][]byte{tx}, res, false); aerr != nil {
-				sim.Direct(outDir, map[string]any{"finding": "apply-transactions-error", "kind": "ApplyTransactions returned an error for a single transaction", "error": aerr.Error()})
+				if propNo == 0 || propNo == 7 {
+					sim.Direct(outDir, map[string]any{"finding": "apply-transactions-error", "kind": "ApplyTransactions returned an error for a single transaction", "error": aerr.Error()})
+				}
 				break
 			}
 			okTx := len(res.Failed) == 0
@@ -250,7 +304,9 @@ func chainMode(r *sim.Rng, nChains, nBlocks int, cw *sim.CaseWriter, outDir stri
 			out := n.Apply(spec)
 			if out.Err != nil {
 				st.BlockErrs++
-				sim.Direct(outDir, map[string]any{"finding": "block-cannot-be-produced", "kind": "ApplyBlock failed on a reachable state (chain wedged)", "height": h, "error": out.Err.Error()})
+				if propNo == 0 || propNo == 12 {
+					sim.Direct(outDir, map[string]any{"finding": "block-cannot-be-produced", "kind": "ApplyBlock failed on a reachable state (chain wedged)", "height": h, "error": out.Err.Error()})
+				}
 				break
 			}
 			sc, e := sim.ScanState(n.FSM)
@@ -273,6 +329,9 @@ func chainMode(r *sim.Rng, nChains, nBlocks int, cw *sim.CaseWriter, outDir stri
 	}
 }
 
+// propNo: 0 = all properties; a wedge (block cannot be produced) is a C12 matter, an error escaping ApplyTransactions a C07 one
+var propNo int
+
 func main() {
 	nStates := flag.Int("states", 10, "tx mode: generated states")
 	perState := flag.Int("txs", 30, "tx mode: transactions per state")
@@ -280,15 +339,19 @@ func main() {
 	nBlocks := flag.Int("blocks", 25, "chain mode: blocks per chain")
 	outDir := flag.String("outdir", ".", "output directory")
 	_ = flag.String("replay", "", "replay file (cases regenerate deterministically from the seed)")
+	prop := flag.Int("prop", 0, "judge the observations for this property only (4, 7, 12, 20; 0 = all)")
 	flag.Parse()
+	propNo = *prop
 	r := sim.NewRng(sim.SeedFromEnv())
 	imp := "From V Require Import U64 Extracted Ledger LedgerCheck."
-	w1 := &sim.CaseWriter{OutDir: *outDir, Name: "c04tx", Imports: imp, CaseType: "tx_case", MFun: "tx_mismatches", VFun: "tx_violations", PerShard: 25}
-	wFail = &sim.CaseWriter{OutDir: *outDir, Name: "c04fail", Imports: imp, CaseType: "fail_case", MFun: "fail_mismatches", VFun: "fail_violations", PerShard: 40}
+	w1 := &sim.CaseWriter{OutDir: *outDir, Name: "c04tx", Imports: imp, CaseType: "tx_case", MFun: "tx_mismatches", VFun: fmt.Sprintf("tx_violations_for %d", *prop), PerShard: 25}
+	wFail = &sim.CaseWriter{OutDir: *outDir, Name: "c04fail", Imports: imp, CaseType: "fail_case", MFun: "fail_mismatches", VFun: fmt.Sprintf("fail_violations_for %d", *prop), PerShard: 40}
+	wSlash = &sim.CaseWriter{OutDir: *outDir, Name: "c04slash", Imports: imp, CaseType: "sl_case", MFun: "sl_mismatches", VFun: fmt.Sprintf("sl_violations_for %d", *prop), PerShard: 25}
 	txMode(r.Fork(), *nStates, *perState, w1, *outDir)
 	w1.Close(st)
+	wSlash.Close(st)
 	wFail.Close(st)
-	w2 := &sim.CaseWriter{OutDir: *outDir, Name: "c04chain", Imports: imp, CaseType: "scan_case", MFun: "scan_mismatches", VFun: "scan_violations", PerShard: 40}
+	w2 := &sim.CaseWriter{OutDir: *outDir, Name: "c04chain", Imports: imp, CaseType: "scan_case", MFun: "scan_mismatches", VFun: fmt.Sprintf("scan_violations_for %d", *prop), PerShard: 40}
 	chainMode(r.Fork(), *nChains, *nBlocks, w2, *outDir)
 	w2.Close(st)
 	fmt.Printf("ledger: %d cases; tx cases %v outcomes %v skipped %v; %d chain blocks scanned, %d blocks failed\n", st.Cases, st.TxCases, st.TxOutcome, st.Skipped, st.Blocks, st.BlockErrs)
